@@ -27,13 +27,18 @@ ASSUMPTIONS = ["a mux without live input is booked (with all-zero values) under 
 
 def gen(rng, i, tier):
     big = tier == "thorough"
-    if rng.random() < 0.25:
-        # mux between rails with a random live/dead input pattern (layouts shared with C05)
+    if i % 3 == 0:
+        # mux between rails with a random live/dead input pattern (layouts shared with C05); mostly with phases, so
+        # that the mux draws from DIFFERENT rails in different phases of one report
         from . import c05
 
         lay = c05.layout(rng, rng.choice([2, 3, 4]))
         lay["rails"] = True
-        spec = c05.realise(lay, [rng.choice([0, 1]) for _ in range(lay["k"])])
+        lay["phases"] = rng.random() < 0.8
+        pat = [rng.choice([0, 1]) for _ in range(lay["k"])]
+        if lay["phases"] and all(pat):
+            pat[0] = 0  # a leading input that is dead in SOME phases
+        spec = c05.realise(lay, pat)
         return {"spec": spec, "energy": False, "ta": 25.0, "phase_arg": rng.random() < 0.2}
     norails = rng.random() < 0.12
     spec = G.gen_system(
